@@ -1246,6 +1246,52 @@ func (e *wireExec) sigStep(s *XStep, w *wireTok, env *envelope) {
 			return
 		}
 		m.sig.Data = sig
+	case "churn":
+		// a long line of NEW principals passes through the decoders (each issues one honest token),
+		// and after each of them the victim's token is offered again with its content rewritten and
+		// signed by that newcomer's key: whatever the library remembers about principals (key
+		// caches of any capacity up to a few hundred) must not make the victim's DID resolve to
+		// somebody else's key
+		victimDID := e.cast.ent(w.spec.iss()).id.String()
+		n := 80 + (s.Val%3)*110
+		reseed(e.t, e.seed, fmt.Sprint("churn", s.Val))
+		for k := 1; k <= n; k++ {
+			priv, id, kerr := did.GenerateEd25519()
+			if kerr != nil {
+				return
+			}
+			// the newcomer's own honest token goes through a decoder first
+			if dummy, derr := delegation.Root(id, id, command.MustParse("/"), nil); derr == nil {
+				if b, _, serr := dummy.ToSealed(priv); serr == nil {
+					_, _, _ = token.FromSealed(b)
+				}
+			}
+			f, oerr := openEnvelope(w.cbor)
+			if oerr != nil {
+				return
+			}
+			var hdr []byte = []byte{0x34, 0xed, 0x01, 0x71}
+			for i := 0; i+1 < len(f.sp.Kids); i += 2 {
+				if string(f.sp.Kids[i].Data) == f.tag {
+					f.sp.Kids[i+1].MapSet("aud", cbText(id.String()))
+				}
+			}
+			f.sp.MapSet("h", cbBytes(hdr))
+			if f.resign(priv) != nil {
+				return
+			}
+			data := f.bytes()
+			acc := e.offer(data, "cbor", w.spec.Kind, true, false)
+			if k%16 == 0 {
+				o.Fault("sig_churn")
+				o.Sig("C06", "churn", w.alg, k/64, len(acc) > 0)
+			}
+			e.conservation(acc, w, data, "content rewritten and signed by a newcomer's key, issuer unchanged", fmt.Sprintf("after %d new principals (victim %s)", k, victimDID[:16]), "cbor")
+			if len(acc) > 0 {
+				return
+			}
+		}
+		return
 	case "did_url":
 		// iss is a DID URL: the victim's identifier followed by a fragment / query / path that names
 		// the attacker's key; header and signature are the attacker's own. Whoever resolves the key
